@@ -23,7 +23,11 @@
 //!   length, named hostile combinations, and (thorough) every string up to
 //!   length 3 over the hostile alphabet; x kinds x origin.
 //! * `binary`   — every binary field (Base16/32/64 renderings, generic
-//!   RFC 3597 data) with every length 0..=8, 20, 32, 33 x two fill patterns.
+//!   RFC 3597 data) with every length 0..=8, 11, 12, 20, 32, 33 (thorough:
+//!   0..=70, 254..=257, 1000) x three fill patterns.
+//! * `codes`    — every record type number 0..=65535 that is a data type,
+//!   through the RFC 3597 generic form; every class number; every SVCB
+//!   parameter key number (quick: a stated subset); TTL digit boundaries.
 //!
 //! Oracle (independent of the library's own helpers): exactly one entry, a
 //! record, whose owner octets, class, TTL and type are the original ones and
@@ -31,8 +35,11 @@
 //! uncompressed wire RDATA against the reference encoding written by the
 //! harness / by `rgen` from the RFC layouts; and then end of file.
 //!
-//! One signature per (type, field-or-owner, octet class, display kind,
-//! coarse outcome).
+//! One signature per (type, field-or-owner, octet class, display kind); the
+//! `values` sweep, which has no field/octet focus, uses the outcome (reader
+//! message) in place of the octet class; panics are always set apart.
+//! Combinations of hostile octets are attributed to the first octet whose
+//! class already fails alone for the same field and kind.
 
 use domain::base::iana::{Class, Rtype};
 use domain::base::name::{FlattenInto, Name, ParsedName, ToName};
@@ -341,7 +348,7 @@ impl Collector {
                     }
                     return false;
                 }
-                let key = (text.len(), text.clone());
+                let key = (text.len(), format!("{}\u{0}{}\u{0}{}", text, origin as u8, m.note));
                 let mut g = self.fails.lock().unwrap();
                 let better = match g.get(&sig) {
                     None => true,
@@ -351,9 +358,14 @@ impl Collector {
                     let mut rd = Vec::new();
                     let _ = rec.data().compose_rdata(&mut rd);
                     let shown: String = text.chars().take(400).collect();
+                    let note: String = if m.note.chars().count() > 260 {
+                        m.note.chars().take(120).chain(" ... ".chars()).chain(m.note.chars().skip(m.note.chars().count() - 120)).collect()
+                    } else {
+                        m.note.to_string()
+                    };
                     let what = format!(
                         "{} [{}{}] text {:?}{}: {}",
-                        m.note,
+                        note,
                         kname,
                         if origin { ", under $ORIGIN" } else { "" },
                         shown,
@@ -1027,7 +1039,9 @@ fn sweep_codes(col: &Collector, thorough: bool) {
                 Err(_) => continue,
             };
             let rec = Record::new(owner.clone(), Class::IN, Ttl::from_secs(3600), z);
-            let focus = Focus::new("rtype", "generic-form", &Rtype::from_int(t).to_string());
+            // one class per mnemonic, one for all TYPEnnn spellings
+            let tn = Rtype::from_int(t).to_string();
+            let focus = Focus::new("rtype", "generic-form", if tn.starts_with("TYPE") { "TYPEnnn" } else { &tn });
             let note = format!("type {t} with RFC 3597 generic data");
             let m = CaseMeta { sweep: "codes-rtype", focus: &focus, sig_detail: false, note: &note };
             for k in KIND_RANGE {
@@ -1044,7 +1058,8 @@ fn sweep_codes(col: &Collector, thorough: bool) {
             let wire = vec![192, 0, 2, 1];
             let z = value_from_wire(1, &wire).expect("A");
             let rec = Record::new(owner.clone(), Class::from_int(cl), Ttl::from_secs(3600), z);
-            let focus = Focus::new("class", "number", &Class::from_int(cl).to_string());
+            let cn = Class::from_int(cl).to_string();
+            let focus = Focus::new("class", "number", if cn.starts_with("CLASS") { "CLASSnnn" } else { &cn });
             let note = format!("class {cl}");
             let m = CaseMeta { sweep: "codes-class", focus: &focus, sig_detail: false, note: &note };
             for k in KIND_RANGE {
